@@ -546,7 +546,7 @@ fn drive_rxwrap<T: Transport>(t: T, _p: &VsParams, _rng: &mut SmallRng) -> Strin
 
 pub fn run(p: &VsParams, sc: &str) -> (Vec<Vec<String>>, Value) {
     // every third scenario runs on a platform that maps buffers in place (no bounce copies)
-    INPLACE_MODE.with(|m| m.set(p.seed % 3 == 0));
+    INPLACE_MODE.with(|m| m.set(p.seed % 3 == 0 && !adv_active()));
     reset_world();
     INPLACE_MODE.with(|m| m.set(false));
     let mut rng = SmallRng::seed_from_u64(p.seed);
